@@ -12,16 +12,16 @@ type MutInfo struct {
 
 var mutatorTable = map[string]MutInfo{
 	// replicated state: an accepted change must be relayed with the named class
-	"models.(*Session).AddEntity":              {Relay: "MSG_TYPE_ENTITY_ADD_BROADCAST"},
-	"models.(*Session).RemoveEntity":           {Relay: "MSG_TYPE_ENTITY_DELETE_BROADCAST"},
-	"models.(*Entity).SetPose":                 {Relay: "MSG_TYPE_ENTITY_UPDATE_POSE_BROADCAST"},
-	"models.(*Session).AddParticipant":         {Relay: "MSG_TYPE_PARTICIPANT_JOIN_BROADCAST"},
-	"models.(*Session).RemoveParticipant":      {Relay: "MSG_TYPE_PARTICIPANT_LEAVE_BROADCAST"},
-	"models.(*EntityComponentStore).Add":       {Relay: "MSG_TYPE_ENTITY_COMPONENT_ADD_BROADCAST", Reports: "err"},
-	"models.(*EntityComponentStore).Update":    {Relay: "MSG_TYPE_ENTITY_COMPONENT_UPDATE_BROADCAST", Reports: "err"},
-	"models.(*EntityComponentStore).Delete":    {Relay: "MSG_TYPE_ENTITY_COMPONENT_DELETE_BROADCAST", Reports: "bool"},
-	"modules/vikja.(*State).SetEntityAction":   {Relay: "MSG_TYPE_VIKJA_ENTITY_ACTION_BROADCAST"},
-	"modules/odal.(*State).SetAssetInstance":   {Relay: "MSG_TYPE_ODAL_ASSET_INSTANCE_ADD_BROADCAST"},
+	"models.(*Session).AddEntity":            {Relay: "MSG_TYPE_ENTITY_ADD_BROADCAST"},
+	"models.(*Session).RemoveEntity":         {Relay: "MSG_TYPE_ENTITY_DELETE_BROADCAST"},
+	"models.(*Entity).SetPose":               {Relay: "MSG_TYPE_ENTITY_UPDATE_POSE_BROADCAST"},
+	"models.(*Session).AddParticipant":       {Relay: "MSG_TYPE_PARTICIPANT_JOIN_BROADCAST"},
+	"models.(*Session).RemoveParticipant":    {Relay: "MSG_TYPE_PARTICIPANT_LEAVE_BROADCAST"},
+	"models.(*EntityComponentStore).Add":     {Relay: "MSG_TYPE_ENTITY_COMPONENT_ADD_BROADCAST", Reports: "err"},
+	"models.(*EntityComponentStore).Update":  {Relay: "MSG_TYPE_ENTITY_COMPONENT_UPDATE_BROADCAST", Reports: "err"},
+	"models.(*EntityComponentStore).Delete":  {Relay: "MSG_TYPE_ENTITY_COMPONENT_DELETE_BROADCAST", Reports: "bool"},
+	"modules/vikja.(*State).SetEntityAction": {Relay: "MSG_TYPE_VIKJA_ENTITY_ACTION_BROADCAST"},
+	"modules/odal.(*State).SetAssetInstance": {Relay: "MSG_TYPE_ODAL_ASSET_INSTANCE_ADD_BROADCAST"},
 	// cascades: what observers drop when they are told the entity is gone
 	"models.(*EntityComponentStore).DeleteByEntityID": {Cascade: "MSG_TYPE_ENTITY_DELETE_BROADCAST"},
 	"modules/vikja.(*State).RemoveEntityActions":      {Cascade: "MSG_TYPE_ENTITY_DELETE_BROADCAST"},
